@@ -48,15 +48,10 @@ type src struct {
 	pieces [][]byte
 	tg     bool
 	term   error
+	rem    int // bytes not yet delivered
 }
 
-func (s *src) left() int {
-	n := 0
-	for _, p := range s.pieces {
-		n += len(p)
-	}
-	return n
-}
+func (s *src) left() int { return s.rem }
 
 func (s *src) Read(p []byte) (int, error) {
 	if len(p) == 0 {
@@ -70,7 +65,8 @@ func (s *src) Read(p []byte) (int, error) {
 	}
 	n := copy(p, s.pieces[0])
 	s.pieces[0] = s.pieces[0][n:]
-	if s.tg && s.left() == 0 {
+	s.rem -= n
+	if s.tg && s.rem == 0 {
 		return n, s.term
 	}
 	return n, nil
@@ -100,7 +96,11 @@ func newSrc(pieces [][]byte, tg bool, term error) *src {
 			cp = append(cp, p)
 		}
 	}
-	return &src{pieces: cp, tg: tg, term: term}
+	rem := 0
+	for _, p := range cp {
+		rem += len(p)
+	}
+	return &src{pieces: cp, tg: tg, term: term, rem: rem}
 }
 
 func cut(data []byte, sizes []int) [][]byte {
@@ -684,6 +684,51 @@ func fields(o *hx.Out) {
 			in = append([]byte{0xff, 0xff, 0xff, 0xff, 0x0f}, in...)
 		}
 		checkReader(o, "field.malformed", rdField(t, t.Gen(r, -1)), in, nil)
+	}
+	// payloads longer than maxPreallocBytes (64 KiB): readBytes (String.ReadFrom, ByteArray.ReadFrom into a destination
+	// without the capacity) takes more than one step - io.ReadFull into a buffer that at most doubles, io.EOF after the
+	// first step mapped to io.ErrUnexpectedEOF.  The step boundaries go to the aligned chunkings and, +-1, to the failure
+	// offsets, each with the terminal error after and together with the last byte delivered.
+	bigs := []struct {
+		t   Ty
+		n   int
+		cap int
+	}{{tString, 70000, 0}, {tByteArray, 66000, 0}}
+	if o.Thorough() {
+		bigs = append(bigs, struct {
+			t   Ty
+			n   int
+			cap int
+		}{tByteArray, 140000, 0}, struct {
+			t   Ty
+			n   int
+			cap int
+		}{tByteArray, 70000, 70000}, struct {
+			t   Ty
+			n   int
+			cap int
+		}{tString, 131072, 0})
+	}
+	for _, bg := range bigs {
+		bg := bg
+		v := vx(r.Bytes(bg.n))
+		old := vx(nil)
+		if bg.cap > 0 {
+			old = vx(make([]byte, 3))
+			old.Spare = make([]byte, bg.cap)
+		}
+		img, _, ok := checkWriter(o, "w.field.big", encoder{name: "field." + leafClass(bg.t),
+			run: func(w io.Writer) error { _, err := bg.t.NewEnc(v).WriteTo(w); return err }})
+		if !ok {
+			continue
+		}
+		pre := len(img) - bg.n
+		bounds := []int{pre}
+		for step := 65536; step < bg.n; step *= 2 {
+			bounds = append(bounds, pre+step)
+		}
+		in := append(append([]byte{}, img...), 0x7f, 0x01)
+		checkReader(o, "field.big", rdField(bg.t, old), in, bounds)
 	}
 	// FixedBitSet, PluginMessageData
 	for i := 0; i < o.N(12, 5); i++ {
